@@ -35,8 +35,8 @@ META = {
         "expressions"
     ),
     "bounds": {
-        "quick": "depth 1 (3 609 expressions)",
-        "thorough": "depth 2 (5 839 expressions)",
+        "quick": "depth 1 incl. the precedence families (6 228 expressions)",
+        "thorough": "depth 2 (8 458 expressions)",
     },
     "assumptions": [
         "`accepted` includes the Python transpiler, since type inference runs there "
